@@ -20,6 +20,14 @@ CLAIMED = {
  "C02": ("world", "Coq proof over all allocator histories (invariant EInv + ghost history of returned handles; "
                   "theorems c02_unique_ids, c02_len, c02_fresh, c02_dead_forever) + differential check of the "
                   "allocator model against the real Entities (meta/pending/cursor snapshots) and issued-handle oracle"),
+ "C03": ("world+containers", "Coq proofs: multiset conservation (Permutation of stored ++ given vs stored' ++ returned ++ dropped) for "
+                  "every world operation, builder/batch operation and command-buffer replay incl. panicking replays; "
+                  "differential check of per-operation drop lists (every component logs its drop; clones get fresh serials) "
+                  "+ implementation-only drop ledger (double drop / leak / drop-after-return)"),
+ "C05": ("guards", "Coq proofs over a sequential per-column cell model: grants keep writer-excludes-all, a query is granted iff "
+                   "compatible (exactness), conflicts iff common column of a non-empty archetype satisfying both with a unique "
+                   "access, drops restore every cell; the unconditional release statement is refuted for failed acquisitions "
+                   "(known finding F9); differential check reading back every column's borrow state after every guard operation"),
  "C06": ("sched", "Coq proof: inductive invariant over all interleavings of an atomic-step model, any thread count; "
                   "exhaustive small-scope schedule replay against the real AtomicBorrow"),
  "C07": ("sched", "Coq proof over all sequences of reserve calls from any reachable flushed state (c07_reserve); "
@@ -27,6 +35,15 @@ CLAIMED = {
  "C08": ("world+query", "Coq proofs: access/prepare/sat agreement and item correctness for every query shape "
                         "(induction over the query AST), iteration/batched/view/query_one theorems under the world "
                         "invariant; differential check of 110 generated query types on every access path"),
+ "C11": ("world+containers", "Coq proofs: recorded ranges tile the component list; replay = direct application (same handles, same "
+                  "denotations, same drops) via a memo-table-insensitive equivalence of worlds; value conservation incl. "
+                  "panicking replays; differential check of record/run/clear/drop/reuse cycles on two worlds"),
+ "C12": ("world+containers", "Coq proofs: build succeeds iff every declared column got its values for any push schedule over "
+                  "successive writers, row i = i-th pushed values, spawning refines the map semantics and conserves values; "
+                  "differential check with duplicates declared, over/under-filled columns, merges into existing archetypes"),
+ "C13": ("world+containers", "Coq proofs: index-table invariant in every reachable builder state (add/replace, clear, build with "
+                  "re-sorting, clone, conversions), observers = contents, replaced values dropped once, clones independent; "
+                  "differential check over 8 component layouts with has/get/component_types probes"),
  "C16": ("world", "Coq proofs: allocator theorems over all histories (c16_reserved_uniform, c16_must_flush) and world-level "
                   "refinement (a reserved handle denotes the empty entity; contains/entity/get/query_one/satisfies are "
                   "functions of that denotation; iteration and views see only entities with a row; flush and structural "
@@ -39,6 +56,10 @@ CLAIMED = {
                  "differential check vs the real Entity (to_bits, from_bits, Eq, Ord, Hash, serde)"),
 }
 ENGINES = [
+ {"name": "world+containers", "path": "coq/Model/Containers.v, harness/src/cont_engine.rs", "serves_properties": ["C03", "C11", "C12", "C13"],
+  "kind_free_text": "models of the bump arena, EntityBuilder(Clone)/BuiltEntityClone, ColumnBatchBuilder, CommandBuffer; container opcodes of the script interpreter; drop ledger"},
+ {"name": "guards", "path": "coq/Model/Guards.v, harness/src/guard_engine.rs", "serves_properties": ["C05"],
+  "kind_free_text": "sequential borrow-cell model of query/view/prepared/query_one/Ref/column guards; guard slab over frozen worlds; ghost reader/writer oracle"},
  {"name": "bits", "path": "coq/Model/EntityBits.v, harness/src/bits.rs", "serves_properties": ["C19"],
   "kind_free_text": "Gallina model + proofs; differential check of Entity bit encoding, order, hashing, serde form"},
  {"name": "sched", "path": "coq/Model/Atomic.v, coq/Model/ReserveRun.v, harness/src/sched.rs", "serves_properties": ["C06", "C07"],
